@@ -63,7 +63,14 @@ pub fn expr(rng: &mut Rng, want_str: bool, depth: u32, mistakes: &mut u32) -> St
         }
         10 => format!("-{}", if wrong { str_atom(rng) } else { num_atom(rng) }),
         11 => format!("+{}", if wrong { str_atom(rng) } else { num_atom(rng) }),
-        12 => format!("({})", expr(rng, false, depth - 1, mistakes)),
+        12 => {
+            if rng.chance(1, 3) {
+                // an arithmetic operator between two operands of the same (string) kind
+                format!("{} {} {}", str_atom(rng), rng.s(&["+", "+", "-", "*", "/", "^"]), str_atom(rng))
+            } else {
+                format!("({})", expr(rng, false, depth - 1, mistakes))
+            }
+        }
         13 => format!("ABS({})", if wrong { str_atom(rng) } else { expr(rng, false, depth - 1, mistakes) }),
         14 => format!("M({})", if wrong { str_atom(rng) } else { expr(rng, false, 0, &mut 0) }),
         _ => num_atom(rng),
@@ -101,7 +108,13 @@ pub fn statement(rng: &mut Rng, mistakes: &mut u32) -> String {
         }
         9 => format!("DIM {}({})", rng.s(&["D", "E$", "F"]), expr(rng, false, 0, mistakes)),
         10 => format!("FOR {} = {} TO {}{}", rng.s(&["I", "J", "K$"]), expr(rng, false, 1, mistakes), expr(rng, false, 1, mistakes), if rng.coin() { format!(" STEP {}", expr(rng, false, 0, mistakes)) } else { String::new() }),
-        11 => "RESTORE".to_string(),
+        11 => {
+            if rng.coin() {
+                "RESTORE".to_string()
+            } else {
+                format!("{} = {} + {}", rng.s(&["A$", "N$"]), str_atom(rng), str_atom(rng))
+            }
+        }
         12 => format!("READ {}", rng.s(&["A$", "A$, B$", "N$"])),
         _ => format!("X = {}", expr(rng, false, 3, mistakes)),
     };
